@@ -48,6 +48,13 @@ def run(res, tier):
         # every constant-coordinate placement appears exactly once at its tile; nothing else is user-placed
         missing = exp - got
         extra = got - exp
+        if (missing or (extra and sum(extra.values()) != dyn)) and len(r["printed"]["blueprint"]["entities"]) > 500:
+            # more than 500 entities: the layout engine solves each connected component on its own and shifts the
+            # components apart by a running x offset, user-placed (fixed) entities included
+            res.known("F48", "with more than 500 entities the layout is decomposed into connected components that are shifted apart, user-placed entities included",
+                      example={"source": r["source"][:400], "options": o, "missing": [list(k) for k in list(missing)[:3]], "unexpected": [list(k) for k in list(extra)[:3]]})
+            stats["finding:F48"] += 1
+            continue
         if missing or (extra and sum(extra.values()) != dyn):
             stats["placement_mismatch"] += 1
             res.violation({"reason": "user-placed entities of the printed blueprint differ from the program's placements",
